@@ -18,7 +18,7 @@ import ast
 import re
 from typing import List, Optional, Tuple
 
-from ..astq import assignments, calls, kwarg, params, stmts
+from ..astq import assignments, calls, kwarg, local_from, local_from_text, params, stmts
 from ..callgraph import fkey
 from ..cfg import cond_atoms, flatten_conj, path_conditions
 from ..report import Check
@@ -60,14 +60,56 @@ def _msg(r: ast.Raise) -> str:
     return re.sub(r"takes (N|_) positional arguments? but (N|_) was given", "takes N positional arguments but N was given", t).strip()
 
 
-def _events(f) -> List[Tuple[str, int, str]]:
-    """(phase, conditional depth inside the phase, event) in source order."""
-    out: List[Tuple[str, int, str]] = []
+def _roles(f) -> dict:
+    """Rename-proof roles of a validator's locals."""
+    ret = [r for r in stmts(f) if isinstance(r, ast.Return) and isinstance(r.value, ast.Tuple) and len(r.value.elts) == 2]
+    if not ret:
+        raise AnalysisError(f"{f.name}: `return args, kwargs` not found")
+    a, k = ret[-1].value.elts
+    A = norm(a.args[0]) if isinstance(a, ast.Call) and a.args else norm(a)
+    K = norm(k)
+    U = local_from(f, lambda v: isinstance(v, ast.Call) and norm(v) == "set()")
     loops = [s for s in f.body if isinstance(s, ast.For)]
-    extra = [s for s in f.body if isinstance(s, ast.If) and "extra_kwargs" in norm(s.test)]
-    if len(loops) < 2 or not extra:
+    pl = next((l for l in loops if norm(l.iter) == params(f)[1]), None)
+    if pl is None or U is None:
+        raise AnalysisError(f"{f.name}: argument loop / used-names set not found")
+    P = norm(pl.target)
+    return {"A": A, "K": K, "U": U, "P": P, "arg_loop": pl, "extra": params(f)[2]}
+
+
+def _events(f) -> List[Tuple[str, int, str]]:
+    """(phase, conditional depth inside the phase, event) in source order; events are recognised by ROLE
+    (returned args list, returned kwargs dict, the used-names set, the loop variable), not by variable name."""
+    out: List[Tuple[str, int, str]] = []
+    R = _roles(f)
+    A, K, U, P, X = R["A"], R["K"], R["U"], R["P"], R["extra"]
+    loops = [s for s in f.body if isinstance(s, ast.For)]
+    extra = [s for s in f.body if isinstance(s, ast.If) and norm(s.test) == X]
+    arg_loop = R["arg_loop"]
+    later = [l for l in loops if l.lineno > arg_loop.lineno]
+    if not later or not extra:
         raise AnalysisError(f"{f.name}: expected argument loop, extra-kwargs block and defaults loop")
-    arg_loop, dflt_loop = loops[-2], loops[-1]
+    dflt_loop = later[-1]
+
+    def classify(st: ast.stmt) -> Optional[str]:
+        if isinstance(st, ast.Expr) and isinstance(st.value, ast.Call) and isinstance(st.value.func, ast.Attribute):
+            recv, meth = norm(st.value.func.value), st.value.func.attr
+            arg0 = norm(st.value.args[0]) if st.value.args else ""
+            if recv == A and meth == "append":
+                return "args.append"
+            if recv == U and meth == "add":
+                return "used.add(key)" if arg0 == f"{P}.key" else "used.add(positional name)"
+            if recv == K and meth == "update" and arg0 == X:
+                return "kwargs.update(extra)"
+        if isinstance(st, ast.Assign) and len(st.targets) == 1:
+            t = st.targets[0]
+            if isinstance(t, ast.Subscript) and norm(t.value) == K:
+                return "kwargs[key]=value" if norm(t.slice) == f"{P}.key" else "kwargs[name]=default"
+            if isinstance(t, ast.Name) and isinstance(st.value, ast.Constant) and st.value.value is True:
+                return "flag=True"
+        if isinstance(st, ast.AugAssign) and isinstance(st.op, ast.Add) and isinstance(st.target, ast.Name) and norm(st.value) == "1":
+            return "counter++"
+        return None
 
     def walk(block, phase: str, depth: int) -> None:
         for st in block:
@@ -79,28 +121,20 @@ def _events(f) -> List[Tuple[str, int, str]]:
                 out.append((phase, depth, f"raise {cls}: {_msg(st)}"))
             elif isinstance(st, ast.Continue):
                 out.append((phase, depth, "continue"))
-            elif isinstance(st, (ast.Assign, ast.AugAssign, ast.Expr)):
-                t = norm(st)
-                for pat, ev in (
-                    (r"^validated_args\.append\(", "args.append"), (r"^validated_kwargs\[param\.key\] = ", "kwargs[key]=value"),
-                    (r"^validated_kwargs\[param_name\] = ", "kwargs[name]=default"), (r"^used_param_names\.add\(param_name\)", "used.add(positional name)"),
-                    (r"^used_param_names\.add\(param\.key\)", "used.add(key)"), (r"^seen_kwargs = True", "seen_kwargs"),
-                    (r"^next_positional_index \+= 1", "next_positional++"), (r"^validated_kwargs\.update\(extra_kwargs\)", "kwargs.update(extra)"),
-                ):
-                    if re.search(pat, t):
-                        out.append((phase, depth, ev))
             elif isinstance(st, (ast.For, ast.While)):
                 walk(st.body, phase, depth + 1)
+            else:
+                ev = classify(st)
+                if ev:
+                    out.append((phase, depth, ev))
 
-    pos = next((s for s in arg_loop.body if isinstance(s, ast.If) and norm(s.test) == "param.key is None"), None)
+    pos = next((s for s in arg_loop.body if isinstance(s, ast.If) and norm(s.test) == f"{P}.key is None"), None)
     if pos is None:
-        raise AnalysisError(f"{f.name}: `if param.key is None` dispatch vanished")
+        raise AnalysisError(f"{f.name}: `if <param>.key is None` dispatch vanished")
     walk(pos.body, "positional", 0)
     walk(pos.orelse, "keyword", 0)
     walk(extra[0].body, "extra-kwargs", 0)
-    # defaults loop: dispatch on the parameter kind
-    disp = [s for s in dflt_loop.body if isinstance(s, ast.If)]
-    for s in disp:
+    for s in [x for x in dflt_loop.body if isinstance(x, ast.If)]:
         if isinstance(s.body[-1], ast.Continue) and len(s.body) == 1:
             out.append(("defaults", 0, "skip bound"))
             continue
@@ -127,18 +161,30 @@ def s1(chk: Check, m, fc, fs) -> None:
 
 def s2(chk: Check, m, fc, fs) -> None:
     chk.rule("S2", "positional-only parameters are distinguished (a) where a positionally bound name is recorded for duplicate-keyword detection and (b) where defaults are materialised as keywords")
-    for f, tag, marks in ((fc, "code", ("posonly_count", "co_posonlyargcount")), (fs, "signature", ("POSITIONAL_ONLY",))):
-        # (b) defaults
-        st = [s for s in stmts(f) if isinstance(s, ast.Assign) and norm(s.targets[0]) == "validated_kwargs[param_name]" and ("default" in norm(s.value)) and "kwdefaults" not in norm(s.value)]
-        st = [s for s in st if any(pol and ("i < positional_count" in t or "POSITIONAL_OR_KEYWORD" in t) for t, pol in cond_atoms(s))]
-        okb = bool(st) and all(any(any(mk in t for mk in marks) and ("!=" in t or ">=" in t) for t, pol in cond_atoms(s) if pol) for s in st)
-        chk.ob("S2", f"util.template_tag:{f.name}:defaults-skip-positional-only", m.loc(st[0]) if st else m.loc(f), okb,
+    for f, marks in ((fc, ("co_posonlyargcount",)), (fs, ("POSITIONAL_ONLY",))):
+        R = _roles(f)
+        K, U, P = R["K"], R["U"], R["P"]
+        # names that carry the positional-only boundary (derived from the marker attribute)
+        carriers = set(marks)
+        for n in body_walk(f):
+            if isinstance(n, ast.Assign) and isinstance(n.targets[0], ast.Name) and n.value is not None and any(mk in norm(n.value) for mk in marks):
+                carriers.add(n.targets[0].id)
+
+        def mentions(text: str) -> bool:
+            return any(c in text for c in carriers)
+
+        # (b) defaults: stores K[<name>] = <positional default> in the defaults loop
+        st = [s for s in stmts(f) if isinstance(s, ast.Assign) and isinstance(s.targets[0], ast.Subscript) and norm(s.targets[0].value) == K and norm(s.targets[0].slice) != f"{P}.key"]
+        st = [s for s in st if "kwdefaults" not in norm(s.value) and "KEYWORD_ONLY" not in " ".join(t for t, pol in cond_atoms(s) if pol)]
+        st = [s for s in st if any(pol and ("POSITIONAL_OR_KEYWORD" in t or "<" in t) for t, pol in cond_atoms(s))]
+        okb = bool(st) and all(any(mentions(t) and ("!=" in t or ">=" in t) for t, pol in cond_atoms(s) if pol) for s in st)
+        chk.ob("S2", f"util.template_tag:{f.name}:defaults-skip-positional-only", m.loc(st[0]) if st else m.loc(f), okb if st else None,
                "the default of an omitted positional parameter is passed as keyword only if the parameter is NOT positional-only" if okb else
                f"{f.name} materialises the default of a positional-only parameter as a keyword argument: `def render(self, context, a=5, /)` used as `{{% tag %}}` raises TypeError where Python binds a=5")
         # (a) duplicate detection
-        add = [s for s in stmts(f) if isinstance(s, ast.Expr) and norm(s) == "used_param_names.add(param_name)"]
-        oka = bool(add) and all(any(any(mk in t for mk in marks) for t, pol in cond_atoms(s)) for s in add)
-        chk.ob("S2", f"util.template_tag:{f.name}:posonly-name-not-a-duplicate", m.loc(add[0]) if add else m.loc(f), oka,
+        add = [s for s in stmts(f) if isinstance(s, ast.Expr) and isinstance(s.value, ast.Call) and isinstance(s.value.func, ast.Attribute) and norm(s.value.func.value) == U and s.value.func.attr == "add" and s.value.args and norm(s.value.args[0]) != f"{P}.key"]
+        oka = bool(add) and all(any(mentions(t) for t, pol in cond_atoms(s)) for s in add)
+        chk.ob("S2", f"util.template_tag:{f.name}:posonly-name-not-a-duplicate", m.loc(add[0]) if add else m.loc(f), oka if add else None,
                "a positionally bound POSITIONAL-ONLY name is not recorded as used, so the same name may still arrive as a keyword for **kwargs" if oka else
                f"{f.name} records every positionally bound parameter name as used: for `def render(self, context, a, /, **kwargs)` the call `{{% tag 1 a=2 %}}` is rejected with 'multiple values for argument a' although Python binds a=1, kwargs={{'a': 2}}")
 
@@ -207,9 +253,10 @@ def s6(chk: Check, proj: Project, m) -> None:
     chk.rule("S6", "resolve_params spreads a resolved value as keywords iff isinstance(value, Mapping) (the ABC), else as positionals iff Iterable, else raises")
     f = m.func("resolve_params")
     chk.analysed(fkey(m, f))
-    tests = [s for s in stmts(f) if isinstance(s, ast.If) and "isinstance(resolved," in norm(s.test)]
+    rv = local_from(f, lambda v: isinstance(v, ast.Call) and last_attr(v.func) == "resolve") or "resolved"
+    tests = [s for s in stmts(f) if isinstance(s, ast.If) and f"isinstance({rv}," in norm(s.test)]
     first = tests[0] if tests else None
-    ok = first is not None and norm(first.test) == "isinstance(resolved, Mapping)"
+    ok = first is not None and norm(first.test) == f"isinstance({rv}, Mapping)"
     if ok:
         src = m.imports.get("Mapping")
         ok = src is not None and src[0] in ("typing", "collections.abc")
@@ -217,19 +264,18 @@ def s6(chk: Check, proj: Project, m) -> None:
            "mappings are recognised with the Mapping ABC" if ok else
            f"spread values are treated as keyword sources only if `{short(first.test) if first is not None else '?'}`: a non-dict mapping (MappingProxyType, ChainMap, os.environ, request.headers) is spread as POSITIONAL arguments (its keys)")
     second = first.orelse[0] if first is not None and first.orelse and isinstance(first.orelse[0], ast.If) else None
-    ok2 = second is not None and norm(second.test) == "isinstance(resolved, Iterable)" and second.orelse and isinstance(second.orelse[-1], ast.Raise)
+    ok2 = second is not None and norm(second.test) == f"isinstance({rv}, Iterable)" and second.orelse and isinstance(second.orelse[-1], ast.Raise)
     chk.ob("S6", "util.template_tag:resolve_params:iterable-then-raise", m.loc(second) if second is not None else m.loc(f), ok2, "other iterables are spread positionally; anything else raises")
 
 
 def s7(chk: Check, proj: Project, m, fc) -> None:
     chk.rule("S7", "the fast validator reads defaults / kwdefaults / code from the function object on every call; the module keeps no per-function memo")
-    want = {"code": "fn.__code__", "defaults": "fn.__defaults__", "kwdefaults": "__kwdefaults__"}
     fnp = params(fc)[0]
-    for var, frag in want.items():
-        a = assignments(fc, var)
-        ok = len(a) >= 1 and a[0][1] is not None and frag.replace("fn.", fnp + ".") in norm(a[0][1]) and fnp in norm(a[0][1])
-        chk.ob("S7", f"util.template_tag:_validate_params_with_code:{var}-fresh", m.loc(a[0][0]) if a else m.loc(fc), ok, f"`{var}` is read from `{fnp}` in this call" if ok else
-               f"`{var}` is not read from the function object in this call (`{norm(a[0][1]) if a and a[0][1] is not None else 'missing'}`): two render functions that share a code object but differ in defaults (closures, factories) get each other's defaults")
+    for attr in ("__code__", "__defaults__", "__kwdefaults__"):
+        reads = [(s_, v) for s_ in stmts(fc) if isinstance(s_, ast.Assign) for v in [s_.value] if attr in norm(v)]
+        ok = bool(reads) and all(fnp in {x.id for x in ast.walk(v) if isinstance(x, ast.Name)} for _s, v in reads)
+        chk.ob("S7", f"util.template_tag:_validate_params_with_code:{attr}-fresh", m.loc(reads[0][0]) if reads else m.loc(fc), ok, f"`{attr}` is read from `{fnp}` in this call" if ok else
+               f"`{attr}` is not read from the function object `{fnp}` in this call: two render functions that share a code object but differ in defaults (closures, factories) get each other's defaults")
     inv = {k: g for k, g in inventory(proj).items() if k.startswith("util.template_tag:") and g.kind in ("dict", "list", "set", "container", "lru_cache", "weakdict")}
     chk.ob("S7", "util.template_tag:no-module-memo", m.loc(m.tree), not inv, "util.template_tag has no module-level mutable state" if not inv else f"module-level state {sorted(inv)} in the validation module: validation results depend on earlier calls")
 
